@@ -931,7 +931,130 @@ func walLine(op string, fid uint32, c logCrypto, recs []logRec, cut, fill int) s
 
 const walNoCut = 1 << 30
 
+// logFile.iterate reads the file through bufio.NewReader (4096-byte buffer) positioned at file
+// offset 20: with records shorter than the buffer it is refilled at file offsets 20+4096*k. A
+// read that is not an io.ReadFull sees a short count exactly there.
+const iterReadBuf = 4096
+
+func recsLen(recs []logRec) int {
+	n := 0
+	for _, r := range recs {
+		n += r.specLen()
+	}
+	return n
+}
+
+func genOneUnit(rng *rand.Rand, st *Stats) []logRec {
+	recs, _ := genUnits(rng, st, 1)
+	return recs
+}
+
+// straddleCount: records of the log whose 4-byte CRC field lies across a refill boundary.
+func straddleCount(recs []logRec) int {
+	off, n := badger.VerifVlogHeaderSize, 0
+	for _, r := range recs {
+		off += r.specLen()
+		if m := (off - badger.VerifVlogHeaderSize) % iterReadBuf; m >= 1 && m <= 3 && off > iterReadBuf {
+			n++
+		}
+	}
+	return n
+}
+
+// genStraddleLog: many small units of varied lengths, then a record padded so that it ends d bytes
+// (1..3) after file offset 20+4096*k, i.e. its CRC field straddles the k-th refill boundary of the
+// read buffer, then a few more units (which must still be delivered).
+func genStraddleLog(rng *rand.Rand, st *Stats, k, d int) []logRec {
+	boundary := badger.VerifVlogHeaderSize + iterReadBuf*k
+	for {
+		var recs []logRec
+		off := badger.VerifVlogHeaderSize
+		for off+1500 < boundary {
+			u := genOneUnit(rng, st)
+			recs = append(recs, u...)
+			off += recsLen(u)
+		}
+		for off+260 < boundary {
+			r := genPlainRec(rng)
+			r.v = randBytes(rng, rng.Intn(40))
+			recs = append(recs, r)
+			off += r.specLen()
+		}
+		// the padded record: outside a transaction, or the first record of one
+		ts := genTs(rng)
+		r := genPlainRec(rng)
+		inTxn := rng.Intn(2) == 0
+		if inTxn {
+			r = logRec{badger.VerifBitTxn, byte(rng.Intn(256)), 0, y.KeyWithTs(genUserKey(rng, 1, 5), ts), nil}
+		}
+		found := false
+		for vl := 0; vl < 400 && !found; vl++ {
+			r.v = make([]byte, vl)
+			if off+r.specLen() == boundary+d {
+				r.v = randBytes(rng, vl)
+				found = true
+			}
+		}
+		if !found {
+			continue
+		}
+		recs = append(recs, r)
+		if inTxn {
+			recs = append(recs, logRec{badger.VerifBitFinTxn, 0, 0, y.KeyWithTs([]byte("!badger!txn"), ts), []byte(strconv.FormatUint(ts, 10))})
+		}
+		for i := 0; i < 2+rng.Intn(3); i++ {
+			recs = append(recs, genOneUnit(rng, st)...)
+		}
+		st.Inc(fmt.Sprintf("wal:crc-straddles-refill-k%d-by%d", k, d))
+		return recs
+	}
+}
+
+// genLongLog: 12..20 KiB of small units, so that several refill boundaries are crossed and record
+// ends fall at arbitrary residues modulo the buffer size.
+func genLongLog(rng *rand.Rand, st *Stats) []logRec {
+	want := 12<<10 + rng.Intn(8<<10)
+	var recs []logRec
+	for n := 0; n < want; {
+		u := genOneUnit(rng, st)
+		recs = append(recs, u...)
+		n += recsLen(u)
+	}
+	st.Inc("wal:long")
+	st.Inc(fmt.Sprintf("wal:long-crc-straddles:%d", straddleCount(recs)))
+	return recs
+}
+
+var walCases int
+
+func init() {
+	regLog("walstraddle", func(rng *rand.Rand, st *Stats) []string {
+		c := genCrypto(rng, st)
+		return []string{walLine("wal", genU32(rng), c, genStraddleLog(rng, st, 1+rng.Intn(3), 1+rng.Intn(3)), walNoCut, 0)}
+	}, nil)
+	regLog("wallong", func(rng *rand.Rand, st *Stats) []string {
+		c := genCrypto(rng, st)
+		return []string{walLine("wal", genU32(rng), c, genLongLog(rng, st), walNoCut, 0)}
+	}, nil)
+}
+
 func genWalCase(rng *rand.Rand, st *Stats) []string {
+	walCases++
+	if walCases == 1 {
+		// once per run: every refill boundary k = 1..3 straddled by 1, 2 and 3 bytes
+		var ops []string
+		for k := 1; k <= 3; k++ {
+			for d := 1; d <= 3; d++ {
+				c := genCrypto(rng, st)
+				ops = append(ops, walLine("wal", genU32(rng), c, genStraddleLog(rng, st, k, d), walNoCut, 0))
+			}
+		}
+		return ops
+	}
+	if rng.Intn(40) == 0 {
+		c := genCrypto(rng, st)
+		return []string{walLine("wal", genU32(rng), c, genLongLog(rng, st), walNoCut, 0)}
+	}
 	c := genCrypto(rng, st)
 	fid := genU32(rng)
 	recs, _ := genUnits(rng, st, rng.Intn(6))
